@@ -81,6 +81,30 @@ def power (d : Dec) (n : Nat) : Dec :=
     let (d', tmp) := powerLoop 64 d one n
     mul d' tmp
 
+/-- `LegacyDec` panics ("Int overflow") when a result needs more than 315 bits -/
+def overflows (x : Int) : Bool := decide (x.natAbs ≥ 2 ^ 315)
+
+/-- `Mul` with the overflow panic made explicit (`none` = Go panics) -/
+def mulChk (a b : Dec) : Option Dec :=
+  let r := mul a b
+  if overflows r then none else some r
+
+/-- `PowerMut` with the overflow panic of every intermediate `MulMut` made explicit -/
+def powerLoopChk : Nat → Dec → Dec → Nat → Option (Dec × Dec)
+  | 0, d, tmp, _ => some (d, tmp)
+  | fuel+1, d, tmp, i =>
+    if i > 1 then
+      match (if i % 2 ≠ 0 then mulChk tmp d else some tmp), mulChk d d with
+      | some tmp', some d' => powerLoopChk fuel d' tmp' (i / 2)
+      | _, _ => none
+    else some (d, tmp)
+
+def powerChk (d : Dec) (n : Nat) : Option Dec :=
+  if n = 0 then some one
+  else match powerLoopChk 64 d one n with
+    | some (d', tmp) => mulChk d' tmp
+    | none => none
+
 /-- decimal rendering identical to `LegacyDec.String()` : sign, integer part, '.', 18 digits -/
 def toString (a : Dec) : String :=
   let m := a.natAbs
